@@ -110,6 +110,7 @@ pub fn decode_c10(u: &mut Unstructured) -> Result<CacheCase> {
         mode,
         ops,
         setter_order: 0,
+        stress: None,
     })
 }
 
